@@ -157,6 +157,10 @@ def gen_a(seed):
     d["meta"]["fix"] = False
     if rng.random() < 0.1:
         d["argv"] = ["-oc", "out/conf.json"] + d["argv"]
+    # a batch stopped by an invalid per-file configuration may ask for a JUnit file too (the pinned
+    # tree dies with a traceback there - which must not touch an input either)
+    if d["meta"].get("stop") and "--junit" not in d["argv"] and rng.random() < 0.6:
+        d["argv"] = ["--junit", "out/j.xml"] + d["argv"]
     # options that only mean something together with --fix are still legal without it
     if rng.random() < 0.25:
         d["argv"] = ["-fp", str(rng.randint(1, 7))] + d["argv"]
